@@ -152,6 +152,8 @@ def run_cvc5(smt2, timeout_ms):
 
 def discharge(o, want_smt2=False, both=False):
     """-> dict(name, kind, status, backend, time_s, model?, smt2?)"""
+    if o.kind == "unclassified":
+        return {"name": o.name, "kind": o.kind, "line": o.line, "backend": "frame", "time_s": 0.0, "status": "undecided", "reason": "receiver cannot be classified by the ownership rules"}
     s_ = z3.Solver()
     s_.set("timeout", Z3_TIMEOUT_MS)
     s_.set("random_seed", 7)
